@@ -704,6 +704,7 @@ pub fn execute(case: &Case, record_seed: Option<u64>) -> Outcome {
         Some(s) => Tape::record(s),
         None => Tape::replay(case.tape.clone()),
     };
+    crate::trace::nested_init();
     clock::begin(work_budget(n), tape);
     // Reference: plain iteration on a fresh parser over the same text in the same environment.
     // In the exhaustive phase consecutive runs share the text; cache T per thread. The cache is
@@ -751,13 +752,17 @@ pub fn execute(case: &Case, record_seed: Option<u64>) -> Outcome {
         // the reference may have come from the cache: the fingerprint covers the checked history only
         clock::fp_reset();
         clock::fp_mix(0xC17);
+        clock::arm_nested();
         let v = match case.client {
             Client::LoadMulti => with_parser(case.input, &prep, PushMulti { t: &t, limit: event_budget(n) }),
             Client::LoadSingle => with_parser(case.input, &prep, PushSingle { t: &t, limit: event_budget(n) }),
             _ => with_parser(case.input, &prep, Pull { case, t: &t }),
         };
+        clock::disarm_nested();
         if let Some((class, detail)) = v {
             out.violation = Some((class, format!("{detail} [input={} client={}]", case.input.describe(), case.client.describe())));
+        } else if let Some(msg) = clock::take_nested_wrong() {
+            out.violation = Some(("WRONG-RESULT(nested-parse)".into(), format!("{msg} [input={} client={}]", case.input.describe(), case.client.describe())));
         }
         out.summary = format!("T = {} events then {}; client {}", t.evs.len(), t.end.describe(), case.client.describe());
     }
